@@ -244,11 +244,14 @@ theorem c11_x_tokenizers :
     toLowerInplaceConds = ["isASCII[s[i]]", "utf8.RuneLen(lower) != upperWid"] ∧
     toLowerInplaceCalls = ["utf8.DecodeRune", "unicode.To", "utf8.RuneLen", "bytes.Map", "utf8.EncodeRune"] := by decide
 
-/-- the ingestor registers tokenizers for exactly text, keyword, path and exists; `index` emits `_exists_` per type -/
+/-- the ingestor registers tokenizers for exactly text, keyword, path and exists, each built from the configuration in the
+constructors' parameter order (max token size, case sensitive, partial indexing); `index` emits `_exists_` per type -/
 theorem c11_x_indexer :
-    registeredTokenizers = ["TokenizerTypeText=tokenizer.NewTextTokenizer", "TokenizerTypeKeyword=tokenizer.NewKeywordTokenizer",
-      "TokenizerTypePath=tokenizer.NewPathTokenizer", "TokenizerTypeExists=tokenizer.NewExistsTokenizer"] ∧
-    indexConds = ["!has", "tokenType.Title != \"\"", "value != nil"] := by decide
+    registeredTokenizers = ["TokenizerTypeText=tokenizer.NewTextTokenizer(c.MaxTokenSize, c.CaseSensitive, c.PartialFieldIndexing, consts.MaxTextFieldValueLength)",
+      "TokenizerTypeKeyword=tokenizer.NewKeywordTokenizer(c.MaxTokenSize, c.CaseSensitive, c.PartialFieldIndexing)",
+      "TokenizerTypePath=tokenizer.NewPathTokenizer(c.MaxTokenSize, c.CaseSensitive, c.PartialFieldIndexing)",
+      "TokenizerTypeExists=tokenizer.NewExistsTokenizer()"] ∧
+    indexConds = ["!has", "tokenType.Title != \"\"", "value != nil"] := ⟨rfl, by decide⟩
 
 /-- `convertMappingWithMultipleTypes`: `Main` is assigned exactly where the title is empty (with the field name as its
 title), titled entries get their own mapping key, `All` is the list in source order -/
